@@ -240,6 +240,11 @@ func (conn *diskConn) Close() error {
 
 	conn.mu.Lock()
 	tracks := conn.close()
+	for _, t := range tracks {
+		// a write may still be in flight, don't let it
+		// reopen the file
+		t.builder = nil
+	}
 	conn.mu.Unlock()
 
 	for _, t := range tracks {
